@@ -122,12 +122,15 @@ def rule_a(ctx):
             if key0 in FLOORS:
                 ctx.floor("C15-A", "decision/value reads of %s" % f["name"], ndec, FLOORS[key0])
     # WrappedBlock copies
-    for name, fn in (("pad_blocks", "WrappedBlock::<T>::force_flush_line"), ("allow_overflow", "WrappedBlock::<T>::flush_word_hard_wrap")):
+    for name, fns in (("pad_blocks", ("WrappedBlock::<T>::force_flush_line",)),
+                      ("allow_overflow", ("WrappedBlock::<T>::flush_word_hard_wrap", "WrappedBlock::<T>::flush_word",
+                                          "WrappedBlock::<T>::add_text"))):
         reads = options.classify_reads(F, "WrappedBlock", name)
         for r in reads:
             b = r["body"]
-            ctx.check(r["kind"] == "decision" and ends(b.id, fn), "C15-A", "WrappedBlock.%s@%s:%s" % (name, fn_key(b), r["kind"]),
-                      r["site"], b.id, "")
+            ctx.check(r["kind"] == "decision" and any(ends(b.id, fn) for fn in fns), "C15-A",
+                      "WrappedBlock.%s@%s:%s" % (name, fn_key(b), r["kind"]), r["site"], b.id,
+                      "the block's copy of the option is read outside the functions that decide about overflowing")
         ctx.floor("C15-A", "reads of WrappedBlock.%s" % name, len(reads), 1)
         ws = options.writes(F, "WrappedBlock", name)
         ctx.check(not ws, "C15-A", "WrappedBlock.%s:no-writer" % name, "", "", "%s" % [(b.id, site(b, bb, w)) for b, bb, w, _ in ws])
